@@ -390,7 +390,10 @@ class SchemaBuilder(
                 else res["type"]
                 for res in results
             )
-            return json_schema(type=list(types))
+            unique_types = list(dict.fromkeys(types))  # "type" items must be unique
+            return json_schema(
+                type=unique_types[0] if len(unique_types) == 1 else unique_types
+            )
         elif (
             len(results) == 2
             and all("type" in res for res in results)
